@@ -19,6 +19,7 @@ def gen(rng, thorough):
         add(f8ctv.fam_types(rng, lite=True))
         add(f8ctv.fam_structured(rng))
         add(f8ctv.fam_random(rng))
+        add(f8ctv.fam_component_twice(rng))
         add(f8ctv.fam_reuse_multi(rng, ALL_REUSE))
         add(f8ctv.fam_malformed(rng), False)
         return cases
@@ -30,6 +31,8 @@ def gen(rng, thorough):
         add(f8ctv.fam_components(rng, n))
     for _ in range(4):
         add(f8ctv.fam_structured(rng))
+    for _ in range(4):
+        add(f8ctv.fam_component_twice(rng))
     for _ in range(24):
         add(f8ctv.fam_random(rng))
     for _ in range(5):
@@ -66,7 +69,7 @@ def run(res, replay=None):
                         'UBSan vptr reports inside message.hpp/message.cpp are suppressed (has_group_count casts every count field to Field<int,0>)',
                         'fields of type LENGTH / DATA / XMLDATA are compiled and their metadata compared, but not populated in the round-trip messages (Length/data pairing is property C06)',
                         'schemas hosted on a FIXT transport (FIX50*.xml + FIXT11.xml, option -x) are not covered: the two-document merge of precompfixt is not modelled']
-    res.cov['rule'] = ('schemas from structured families (every field type x {no domain, set, range}; groups nested 0..4 with shared definitions; components nested 0..3 inside messages and groups, '
+    res.cov['rule'] = ('schemas from structured families (every field type x {no domain, set, range}; groups nested 0..4 with shared definitions; components nested 0..3 inside messages and groups, one component referenced twice by one message (sibling groups, two wrappers), '
                        'required/optional at every level; one count field reused with identical / different / structurally close definitions), random schemas (tags up to 65535), malformed schemas '
                        '(unknown field / group / component, duplicate msgtype or member, unknown type, low version, lower-case required) and, in the thorough tier, the stock schemas of /repo/schema without FIXT. '
                        'Each schema: fresh f8c, g++, every table read back through F8MetaCntx; compared item by item with the Lean model and with the schema (independent oracle); per message type a full and a random-subset '
